@@ -503,6 +503,39 @@ def _gen_setalg(rng, tier):
     return _gen_mixed(rng, tier, (1, 2, 2, 9, 1))
 
 
+def _gen_large_real(rng, tier):
+    """The `len(ded) > 384` branch of _cull with the SHIPPED constants: 3200+ items, one item in eight of the
+    first 3080+ removed (385+ separate tombstones stay below 1/8 of the slots, so only the interval count
+    triggers the compaction).  Affordable since tokens are binary numbers."""
+    n0 = rng.choice([3200, 3300, 3500])
+    ref = Ref()
+    ops = [["update", [["list", list(range(n0))]], "ctor"]]
+    ref.apply(ops[0])
+    nrem = rng.choice([385, 387, 392])
+    pos = [1 + 8 * t for t in range(nrem)]
+    if rng.random() < 0.5:
+        head, tail_ = pos[:-5], pos[-5:]
+        rng.shuffle(head)
+        pos = head + tail_
+    for t, v in enumerate(pos):
+        ops.append([rng.choice(["remove", "remove", "discard"]), v])
+        ref.apply(ops[-1])
+        if t % 64 == 63 or t >= nrem - 8:
+            n = len(ref.l)
+            ops.append(["get", rng.randrange(n)])
+            ops.append(["index", ref.l[rng.randrange(n)]])
+            ops.append(["get", -1 - rng.randrange(min(n, 9))])
+    ops.append(["slice", 5, 600, 70])
+    ops.append(["pop", 3])
+    ref.apply(ops[-1])
+    ops.append(["add", n0 + 5])
+    ref.apply(ops[-1])
+    ops.append(["get", len(ref.l) - 1])
+    ops.append(["index", n0 + 5])
+    ops.append(["len"])
+    return {"keymode": "int", "digests": False, "ops": ops, "stream": "large_real"}
+
+
 def _gen_large(rng, tier):
     """More than `limit` (384) separate dead intervals, so that _cull takes its `len(ded) > 384` branch on the
     real code.  With the shipped _COMPACTION_FACTOR = 8 that needs > 3080 items (385 tombstones must stay below
@@ -577,10 +610,11 @@ def _generate(rng, tier, n):
             yield c
         for c in _pop_grid():
             yield c
-    n_large = 0 if n < 100 else (1 if tier == "quick" else 4)
+    n_large = 0 if n < 100 else (2 if tier == "quick" else 6)
     for i in range(n):
         if i < n_large:
-            yield _gen_large(rng, tier)
+            # even: shipped constants, > 3080 items; odd: factor set to 2 from outside, ~800 items
+            yield _gen_large_real(rng, tier) if i % 2 == 0 else _gen_large(rng, tier)
             continue
         r = rng.random()
         if i % 12 == 11:
